@@ -14,6 +14,7 @@ import (
 	msm4 "github.com/goblimey/go-ntrip/rtcm/type_msm4/message"
 	msm7 "github.com/goblimey/go-ntrip/rtcm/type_msm7/message"
 	"github.com/goblimey/go-ntrip/rtcm/utils"
+	"pgregory.net/rapid"
 	"vh/drive"
 	"vh/enc"
 	"vh/stats"
@@ -208,5 +209,12 @@ func TestTypes(t *testing.T) {
 	}
 	R.Exhaustive("types: all 4096 12-bit message types plus the sentinels -1 and -2")
 }
+
+// The classifications must also agree when many goroutines ask at the same time (first-use effects included).
+func genType(t *rapid.T) Case { return Case{Type: rapid.IntRange(-2, 4095).Draw(t, "type")} }
+
+var propParallel = stats.ParallelProp(R, "parallel", genType, check, 8)
+
+func TestParallel(t *testing.T) { rapid.Check(t, propParallel) }
 
 func TestReplay(t *testing.T) { R.Replay(t) }
